@@ -128,6 +128,12 @@ def classify(G, model):
                 i = p_index(st.value, pname)
                 if i is not None:
                     alias[st.targets[0].id] = i
+            elif isinstance(st, ast.Assign) and len(st.targets) == 1 and isinstance(st.targets[0], ast.Tuple) and isinstance(st.value, ast.Tuple) \
+                    and len(st.targets[0].elts) == len(st.value.elts):
+                for t_, v_ in zip(st.targets[0].elts, st.value.elts):
+                    i = p_index(v_, pname)
+                    if isinstance(t_, ast.Name) and i is not None:
+                        alias[t_.id] = i
 
         def idx(e):
             i = p_index(e, pname)
